@@ -1786,14 +1786,28 @@ type requiredLandmarkMatch struct {
 }
 
 func findNextRequiredLandmarkRunes(input []rune, startAt, endAt int, landmark syntax.RequiredLandmark) (requiredLandmarkMatch, bool) {
-	for i := startAt; i < endAt; i++ {
+	// Start and CoreStart describe the first occurrence of any alternative. End
+	// has to be the earliest position at which ANY occurrence can end, because
+	// the next landmark is searched from there and not finding it ends the scan:
+	// another alternative at the same position may be shorter (abc|a), and an
+	// occurrence that starts later may end earlier (b|abc in "xabc").
+	var best requiredLandmarkMatch
+	found := false
+	for i := startAt; i < endAt && (!found || i < best.End); i++ {
 		for _, alt := range landmark.Alternatives {
-			if match, ok := requiredLandmarkAlternativeMatch(input, i, endAt, alt); ok {
-				return match, true
+			match, ok := requiredLandmarkAlternativeMatch(input, i, endAt, alt)
+			if !ok {
+				continue
+			}
+			if !found {
+				best = match
+				found = true
+			} else if match.End < best.End {
+				best.End = match.End
 			}
 		}
 	}
-	return requiredLandmarkMatch{}, false
+	return best, found
 }
 
 func requiredLandmarkAlternativeMatch(input []rune, start, endAt int, alt syntax.RequiredLandmarkAlternative) (requiredLandmarkMatch, bool) {
